@@ -15,11 +15,15 @@ def prep(sid):
     r = subprocess.run(["git", "apply", "--whitespace=nowarn", "--include=xandikos/*", "/verif/seeded/%s/patch.diff" % sid], cwd=d, capture_output=True, text=True)
     return r.returncode == 0
 
+def base_of(prop):
+    from xstatic import core
+    return prop, sorted(o.key for o in core.run_property(prop, "/repo", "quick").violated)
+
 def work(a):
-    sid, prop = a
+    sid, prop, base = a
+    base = set(base)
     from xstatic import core
     try:
-        base = {o.key for o in core.run_property(prop, "/repo", "quick").violated}
         r = core.run_property(prop, os.path.join(BASE, sid), "quick")
         new = [o for o in r.violated if o.key not in base]
         return sid, prop, sorted({o.rule for o in new}), [e[:160] for e in r.errors]
@@ -30,7 +34,9 @@ if __name__ == "__main__":
     pat = sys.argv[1] if len(sys.argv) > 1 else ""
     ids = [d for d in sorted(os.listdir("/verif/seeded")) if pat in d]
     ids = [s for s in ids if prep(s)]
-    tasks = [(s, p) for s in ids for p in PROPS]
+    with ProcessPoolExecutor(16) as ex:
+        BASE = dict(ex.map(base_of, PROPS))
+    tasks = [(s, p, BASE[p]) for s in ids for p in PROPS]
     res = {}
     with ProcessPoolExecutor(16) as ex:
         for sid, prop, rules, errs in ex.map(work, tasks, chunksize=2):
